@@ -49,6 +49,11 @@ pub(crate) struct DhtHandler {
     refresh: TableRefresh,
     // Ongoing TableLookups.
     lookups: HashMap<ActionID, TableLookup>,
+
+    // Whether the initial bootstrap has completed.
+    initial_bootstrap_done: bool,
+    // Lookups requested before the initial bootstrap completed. Started once it does.
+    queued_lookups: Vec<StartLookup>,
 }
 
 impl DhtHandler {
@@ -93,6 +98,8 @@ impl DhtHandler {
             bootstrap_txs: HashMap::new(),
             refresh: table_refresh,
             lookups: HashMap::new(),
+            initial_bootstrap_done: false,
+            queued_lookups: Vec::new(),
         }
     }
 
@@ -151,7 +158,13 @@ impl DhtHandler {
                 self.handle_check_bootstrap(tx);
             }
             OneshotTask::StartLookup(lookup) => {
-                self.handle_start_lookup(lookup).await;
+                if self.initial_bootstrap_done {
+                    self.handle_start_lookup(lookup).await;
+                } else {
+                    // The routing table is still being populated, postpone the lookup until the
+                    // initial bootstrap completes.
+                    self.queued_lookups.push(lookup);
+                }
             }
             OneshotTask::GetLocalAddr(tx) => self.handle_get_local_addr(tx),
             OneshotTask::GetState(tx) => self.handle_get_state(tx),
@@ -417,6 +430,12 @@ impl DhtHandler {
 
         // Start the refresh action.
         self.handle_check_table_refresh().await;
+
+        // Start the lookups that were requested before the initial bootstrap completed.
+        self.initial_bootstrap_done = true;
+        for lookup in std::mem::take(&mut self.queued_lookups) {
+            self.handle_start_lookup(lookup).await;
+        }
     }
 
     async fn handle_start_lookup(&mut self, lookup: StartLookup) {
